@@ -278,10 +278,20 @@ func (cc *cacheController) flush() {
 	for k, sem := range cc.rlockSems {
 		sem.RUnlock()
 		delete(cc.rlockSems, k)
+		cc.dropUnownedLine(k)
 	}
 	for k, sem := range cc.lockSems {
 		sem.Unlock()
 		delete(cc.lockSems, k)
+		cc.dropUnownedLine(k)
+	}
+}
+
+// dropUnownedLine removes from L1 a line that an aborted request has already
+// fetched but whose protocol state is still invalid.
+func (cc *cacheController) dropUnownedLine(addr comp.AlignedAddress) {
+	if cc.msi.states[msiEntry{cc.id, addr}] == invalid {
+		_, _ = cc.l1d.EvictCacheLine(addr)
 	}
 }
 
